@@ -438,6 +438,25 @@ def w_reformat(args):
                 cause = f"edge-whitespace:{edge}" if edge else ("newline" if "\n" in fv else ("string-literal" if any(q in fv for q in "\"'") else "other"))
                 w = {"fragment": formula, "respelled": fv, "observed": [ref, got, both], "code": REFORMAT_REPRO.format(a=formula, b=fv)}
                 acc.fail("C15.python.formatting-insensitive", f"{cause}/{kind}", w, f"{formula!r} and {fv!r} have the same Python AST but give {ref} vs {got} (sum: {both})")
+    # a back-ticked name directly abutting Python keywords / identifiers (zero blanks) vs the spaced spelling
+    templates = ["{N}if True else 0", "0 if{N}else 1", "x if{N}else{N}", "x in{N}", "{N}in x", "{N}not in x", "{N}and x", "x and{N}", "x or{N}", "{N}or x",
+                 "not{N}", "{N}is None", "x is{N}", "x is not{N}", "[v for v in{N}]", "[{N}for v in x]", "lambda v:{N}", "f({N}if x else{N})", "f(x,{N})", "{N}+{N}"]
+    for name in ("`a b`", "`a+b`", "`1a`", "`é ü`"):
+        for tmpl in templates:
+            tight, spaced = tmpl.replace("{N}", name), tmpl.replace("{N}", " " + name + " ").strip()
+            call = tmpl.startswith("f(")
+            fa, fb = (spaced, tight) if call else ("{" + spaced + "}", "{" + tight + "}")
+            ref = factors_of(parser, fa)
+            if ref[0] != "ok":
+                acc.case((fa, fb), False)
+                continue
+            acc.case((fa, fb), True, sample={"fragment": fa, "respelled": fb})
+            got = factors_of(parser, fb)
+            both = factors_of(parser, fa + " + " + fb)
+            if not (got == ref and both == ref and C1._lib_equal(lambda: Formula(fa, _parser=parser) == Formula(fb, _parser=parser))):
+                kind = "factors-differ" if got[0] == "ok" else f"ok-vs-{got[0]}:{got[1]}"
+                w = {"fragment": fa, "respelled": fb, "observed": [ref, got, both], "code": REFORMAT_REPRO.format(a=fa, b=fb)}
+                acc.fail("C15.python.formatting-insensitive", f"backticked-name-abutting-keyword/{kind}", w, f"{fa!r} and {fb!r} differ only in blanks around a back-ticked name but give {ref} vs {got} (sum: {both})")
     return ("python-reformatting", acc.result())
 
 
@@ -987,7 +1006,7 @@ def run_bounded(ctx):
             exhaustive=False,
             bound=f"{len(name_pool(th, seed))} names",
         ),
-        "python-reformatting": ctx.bounded("python-reformatting", rule="57 call/brace fragments x respellings with identical AST (token spacing, tabs, quote style, redundant parentheses, trailing comma, newline inside brackets; blank / tab / LF / CRLF / LF+indent immediately inside the quoting brace or call bracket, leading and trailing): equal factors, equal formulas, one term when summed", exhaustive=False, bound="see rule"),
+        "python-reformatting": ctx.bounded("python-reformatting", rule="57 call/brace fragments x respellings with identical AST (token spacing, tabs, quote style, redundant parentheses, trailing comma, newline inside brackets; blank / tab / LF / CRLF / LF+indent immediately inside the quoting brace or call bracket, leading and trailing); 20 templates x 4 back-ticked names directly abutting keywords/identifiers vs the spaced spelling: equal factors, equal formulas, one term when summed", exhaustive=False, bound="see rule"),
         "python-verbatim": ctx.bounded("python-verbatim", rule="valid Python fragments containing operator characters, brackets and quotes (inside string literals, also backslash-escaped in raw and plain literals, and as Python syntax): one python token with exactly the fragment text, one term, one python factor with the fragment's AST; fragments quoting a name with an escaped backtick: one token", exhaustive=False, bound="~560 fragments"),
         "string-tokens": ctx.bounded("string-tokens", rule="string literals in both quote styles holding brackets, operators, the other quote, backticks: one verbatim value token, in 4 positions", exhaustive=False, bound="26 payloads"),
         "token-spans": ctx.bounded(
